@@ -157,6 +157,10 @@ type Exec struct {
 	byteTab  [256]*Term
 	Trace    bool
 	Progress func(*Exec)
+	// Witness is a model of the first completed path (inputs on which every assertion held symbolically);
+	// the driver replays it natively to cross-check the executor against the compiled code
+	Witness     map[string]uint64
+	WitnessMeta map[string]InputMeta
 	LastEnd  string
 	intr     map[string]intrinsic
 	vrtPath  string
@@ -278,6 +282,12 @@ func (ex *Exec) runPath(fn *ssa.Function) {
 			return
 		}
 		ex.Stats.PathsNormal++
+		if ex.Witness == nil && len(ex.inputs) > 0 {
+			if m := ex.model(nil); m != nil {
+				ex.Witness = m
+				ex.WitnessMeta = ex.copyMeta()
+			}
+		}
 	}()
 	ex.callFunction(fn, nil)
 }
